@@ -108,6 +108,19 @@ CHECKS = {
         design_ref="DESIGN.md §3 C17", engine="inproc+compile"),
 }
 
+# dimensions added by the defect-hunting rounds and round 9 (DESIGN.md 7.18 / 7.19): the deciding method is the same bounded
+# exhaustive enumeration, over a larger alphabet
+ADDED = {
+    "C01": " Field types with constant expressions of every kind and with `Self`; `#[deprecated]` / lint-allowing items (non-snake-case fields, lower-case parameters); companion impls written by hand; macro-generated twins where fragments are nested in types, sit behind references, appear in attribute lists (each with a use site).",
+    "C02": " Plus types generated by a macro_rules!: arguments built around `$e:expr` fragments (operators, paths-only sums, statements and items in block arguments) and literals written by the macro's caller naming `_0`, `_1`, `_variant`, width and precision fields; reference: a format! written by the same macro.",
+    "C04": " Plus fields generic only through `Self` projections or type macros, and recursive generic types (by name / `Self`, incl. recursive fields fixing one parameter) compiled and instantiated with formatting-less types.",
+    "C06": " (4) recursive generic types (lists, trees, by name and as `Self`) against std's derive on the identical definition.",
+    "C09": " The model's sole-field rule follows error.md (`not used as the backtrace`); every error type carries a decoy inherent `as_dyn_error`; ignored variants whose fields carry source / not(backtrace) attributes.",
+    "C11": " Variant-level `#[unwrap(ref)]` / `#[unwrap(ref, ref_mut)]` selections are additive (other variants keep their accessors).",
+    "C12": " Part E: names like the expansion's helper constants, raw enum names with `Self` discriminants; part G: enums generated by one and by two nested macro_rules! whose discriminants are built around `$e:expr` fragments.",
+    "C16": " Alphabet extended by comparison/shift followed by a global path and by undelimited struct literals combined with generic casts, `|` and closures.",
+}
+
 PENDING = ["C01", "C02", "C03", "C04", "C05", "C06", "C07", "C08", "C09", "C10", "C11", "C13", "C14", "C15", "C16",
            "C17", "C18", "C19", "C20"]
 
@@ -124,7 +137,7 @@ def main():
             "engine": c["engine"],
             "level_claimed": {"category": "model_checking", "text": c["text"], "design_ref": c["design_ref"]},
             "level_note": c["note"],
-            "technique": c["technique"],
+            "technique": c["technique"] + ADDED.get(pid, ""),
         })
     na = [{"property_id": p, "reason": "check not built yet in this round (planned: DESIGN.md §3); not claimed until it exists"}
           for p in PENDING if p not in CHECKS]
